@@ -4,7 +4,9 @@ From Coq Require Import Bool List NArith ZArith Lia.
 From M Require RegProofs.
 From M Require Tie.
 From M Require CmdLayer.
+From M Require StbUser.
 From M Require C12Latch.
+From M Require CmdLayer.
 From M Require CmdModel.
 From M Require RegModel.
 From M Require RegProofs.
@@ -94,4 +96,22 @@ Theorem C11_cmd_history_runs :
 Proof. exact (@CmdLayer.cmd_history_runs). Qed.
 End T_cmd_history_runs.
 Definition C11_cmd_history_runs := @T_cmd_history_runs.C11_cmd_history_runs.
+
+Module T_stb_coherent_user. Import StbUser. Local Open Scope bool_scope. Local Open Scope Z_scope.
+Import RegModel RegProofs CmdModel CmdLayer. Local Open Scope N_scope.
+Theorem C11_stb_coherent_user :
+  forall qc xs,
+  (0 < qc)%Z -> Forall xlegal xs -> Inv (fold_left xstep xs (init qc)).
+Proof. exact (@StbUser.stb_coherent_user). Qed.
+End T_stb_coherent_user.
+Definition C11_stb_coherent_user := @T_stb_coherent_user.C11_stb_coherent_user.
+
+Module T_user_bit_raises_mss. Import StbUser. Local Open Scope bool_scope. Local Open Scope Z_scope.
+Import RegModel RegProofs CmdModel CmdLayer. Local Open Scope N_scope.
+Theorem C11_user_bit_raises_mss :
+  let s := fold_left xstep [XA (ACmd (KSre 256)); XStb true 256] (init 2) in
+  rg s STB = 320 /\ rg (xstep s (XStb false 256)) STB = 0.
+Proof. exact (@StbUser.user_bit_raises_mss). Qed.
+End T_user_bit_raises_mss.
+Definition C11_user_bit_raises_mss := @T_user_bit_raises_mss.C11_user_bit_raises_mss.
 
